@@ -13,5 +13,12 @@ CHECKS = {
  'C05': {'text': 'Exhaustive enumeration of every column of 1..4 subsets (quick: 1..3) over {missing, 0..2^w-2} for widths 1..4, numeric and code, through encoder->decoder, encoder->independent reader and reference-writer (all legal difference widths incl. 63)->decoder; plus generated templates / 33..64-bit fields / character columns stored both ways and compared on values, labels, links and nested view.',
          'note': 'Exhaustive only for the enumerated small-scope column space; random beyond. Reference writer defines "legal difference width" as any width holding the differences with all-ones reserved.',
          'technique': 'exhaustive small-scope enumeration + property-based metamorphic testing (compressed vs uncompressed) with an independent reader/writer'},
+
+ 'C06': {'text': 'Generated search over uncompressed multi-subset messages whose subsets differ in structure: the joint decode is compared with the decode of each subset alone and of a permutation (values, labels, links, hierarchical view), with the reference values, and the encoder output with the reference concatenation.',
+         'note': 'Single-subset / permuted messages are rebuilt by the reference model from the same raw values; bounded random exploration.',
+         'technique': 'property-based metamorphic testing (together vs alone vs permuted) with an independent reference'},
+ 'C07': {'text': 'Generated search over bitmap constructs (222/223/224/225/232 blocks, 236/237/235 chains, all bit patterns as data, listed / replicated / delayed bitmaps) and associated fields, compressed or not: bitmap_links and the full nested-JSON attribute structure are compared with the reference back-reference model and expected hierarchical view.',
+         'note': 'Trusts the back-reference model of refbufr.walker and refbufr.nested; ambiguous combinations (DESIGN 10-2) not generated.',
+         'technique': 'property-based testing (Hypothesis) against an independent reference model of bitmap back-references and attribute wiring'},
 }
 NOT_YET = {}
